@@ -392,7 +392,10 @@ def compare(ex, st, op, a, b, node):
 
 def contains(ex, st, item, coll, node):
     if is_sink(item):
-        return fresh('bool', 'sink_member').t
+        key = 'sinkmember:' + item.what
+        if key not in st.ghost:
+            st.ghost[key] = fresh('bool', 'sink_member')
+        return st.ghost[key].t
     if isinstance(coll, (PyList, list, tuple)):
         items = coll.items if isinstance(coll, PyList) else list(coll)
         if not items:
